@@ -260,10 +260,27 @@ def run_trace_step(prop, stp, seed):
     trace = os.path.join(WORK, "traces", "%s.%s.ndjson" % (prop, stp["driver"]))
     r = sh([BIN, "drive", "--kind", stp["driver"], "--types", ",".join(stp["types"]), "--n", str(stp["n"]), "--steps", str(stp.get("steps", 40)),
             "--seed", str(seed), "--out", trace])
+    crashed = None
     if r.returncode != 0:
-        raise ToolError("driver failed: " + r.stdout[-500:])
-    nev = sum(1 for _ in open(trace))
-    res = tlc_trace("TraceFlat", "TraceFlat.cfg", trace)
+        if r.returncode < 0 or r.returncode in (101, 134, 139):
+            # the library took the process down (abort, fault) under the driver: that is an outcome, not a tool error
+            crashed = "signal %d" % -r.returncode if r.returncode < 0 else "exit %d" % r.returncode
+        else:
+            raise ToolError("driver failed: " + r.stdout[-500:])
+    nev = sum(1 for _ in open(trace)) if os.path.exists(trace) else 0
+    if crashed:
+        last = ""
+        try:
+            last = open(trace).read().splitlines()[-1][:600]
+        except Exception:
+            pass
+        sig = "%s|driver-crash|%s|%s" % (prop, stp["driver"], crashed.replace(" ", ""))
+        v = {"prop": prop, "sig": sig, "detail": "the seeded driver (%s, seed %s) ended abnormally (%s) after %d events: %s; last recorded event: %s" % (stp["driver"], seed, crashed, nev, r.stdout[-200:].strip(), last),
+             "case": {"k": "trace", "step": {k: stp[k] for k in stp if k != "type"}, "seed": seed}}
+        return {"cases_run": nev, "counts": {"trace.%s.events" % stp["driver"]: max(nev, 1), "judged." + prop: nev}, "samples": {}, "sigs": {sig: {"count": 1, "first": v}}, "kept": [],
+                "trace": {"accepted": False, "rejected": [crashed], "states": 0, "wall_s": 0.0, "cmd": "driver crashed"}}
+    module = stp.get("module", "TraceFlat")
+    res = tlc_trace(module, module + ".cfg", trace)
     rep = {"cases_run": nev, "counts": {"trace.%s.events" % stp["driver"]: nev, "judged." + prop: nev}, "samples": {}, "sigs": {}, "kept": [], "trace": res}
     with open(trace) as f:
         first = f.readline().strip()
@@ -278,8 +295,8 @@ def run_trace_step(prop, stp, seed):
                 ev = json.loads(json.loads('"' + m.group(2) + '"'))
             except Exception:
                 ev = {"raw": m.group(2)[:2000]}
-        what = ev.get("ev", "?") + ("." + str(ev.get("op", {}).get("op", "")) if isinstance(ev.get("op"), dict) else "") + ("." + ev.get("what", "") if ev.get("ev") == "panic" else "")
-        sig = "%s|trace|%s|%s" % (prop, ev.get("id", "?"), what)
+        what = ev.get("ev", ev.get("ty", "?")) + ("." + str(ev.get("op", {}).get("op", "")) if isinstance(ev.get("op"), dict) else "") + ("." + ev.get("what", "") if ev.get("ev") == "panic" else "")
+        sig = "%s|trace|%s|%s" % (prop, ev.get("id", ev.get("ty", "?")), what)
         v = {"prop": prop, "sig": sig, "detail": "recorded event %s is not a step of the specification: %s" % (m.group(1) if m else "?", json.dumps(ev)[:600]),
              "case": {"k": "trace", "step": {k: stp[k] for k in stp if k != "type"}, "seed": seed, "event": ev}}
         rep["sigs"][sig] = {"count": 1, "first": v}
